@@ -61,7 +61,7 @@ class _Ob:
 
 OB = _Ob()
 
-OPS = ['ru', 'ru', 'uu', 'ra', 'ua', 'rs', 'us', 'rh', 'uh', 'reinit']
+OPS = ['ru', 'ru', 'ru', 'uu', 'uu', 'ra', 'ua', 'rs', 'us', 'rh', 'uh', 'reinit', 'dropcache']
 
 
 def play(steps):
@@ -95,6 +95,9 @@ def _play(steps, ev):
         if op == 'reinit':
             c.__init__('again')
             Uref, Aref, Sref, Href = {}, {}, [], []
+        elif op == 'dropcache':
+            # what copying / unpickling / a ZODB ghost does: the volatile bookkeeping is gone, the registrations stay
+            c._v_utility_registrations_cache = None
         elif op == 'ru':
             old = Uref.get((p, nm))
             if not (old is not None and old[0] == comp and old[1] == info):
@@ -245,11 +248,28 @@ def replay(steps):
 
 
 def run(ctx):
-    ctx.rule = ('random histories of <=8 calls over the eight register/unregister methods plus re-initialisation, components '
+    ctx.rule = ('random histories of <=8 calls over the eight register/unregister methods plus re-initialisation and loss of the volatile utility bookkeeping (_v_ attribute, as after copy/unpickle), components '
                 'drawn from {hashable equal pair, hashable other, unhashable equal pair, unhashable other, falsy unhashable, falsy hashable}, 2 related provided '
                 'interfaces, 2 names, 3 required tuples; after every call: events, return value, the four listings, utility '
                 'queries, underlying registries, rebuild probe against a list-based reference; distinct = histories')
-    ctx.bounds = 'history<=8'
+    ctx.bounds = 'random history<=8; exhaustive sequences<=3/4 after one component registered under two names'
+    # exhaustive: one component registered under two names of one interface, then every sequence of <=3 (quick) / 4
+    # (thorough) calls over {register again, unregister either name, replace by another component, lose the volatile
+    # bookkeeping}: the per-interface subscription count must follow the number of names, also when it is re-derived
+    import itertools
+    for ci in (0, 3):           # a hashable and an unhashable component
+        alphabet = [('ru', ci, 0, 0, 0, 0, 0), ('ru', ci, 0, 1, 0, 0, 0), ('uu', ci, 0, 0, 0, 0, 0), ('uu', ci, 0, 1, 0, 0, 0),
+                    ('ru', 2, 0, 0, 0, 0, 0), ('dropcache', 0, 0, 0, 0, 0, 0)]
+        for ln in range(1, (3 if ctx.tier == 'quick' else 4) + 1):
+            for seq in itertools.product(alphabet, repeat=ln):
+                if ctx.out_of_time() or ctx.too_many():
+                    return
+                steps = (alphabet[0], alphabet[1]) + seq
+                bad, n = play(steps)
+                ctx.evaluations += n
+                ctx.distinct.add(steps)
+                for sig, what, known in bad[:3]:
+                    ctx.violation(known or sig, what, 'from falsify.C16 import replay\nreplay(%r)\n' % (steps,), known)
     trials = 1500 if ctx.tier == 'quick' else 20000
     for t in range(trials):
         if ctx.out_of_time() or ctx.too_many():
